@@ -294,6 +294,22 @@ pub fn projection(c: Compiled, proj: &str) -> String {
             let diags = state.diagnostics.into_updated(&state.ast, &state.files, &options);
             format!("{} diags={}", files.join("|"), codes(&diags))
         }
+        // C01: the only observation is that a verdict was returned (a crash or a hang is caught by the worker supervisor);
+        // exercising the emitter and the request encoder on the result is part of "returning a verdict"
+        "any" => {
+            let files = state.files;
+            let accepted = !state.diagnostics.has_errors();
+            let diags = state.diagnostics.into_updated(&state.ast, &files, &options);
+            let mut sink: Vec<u8> = Vec::new();
+            for format in [slicec::slice_options::DiagnosticFormat::Human, slicec::slice_options::DiagnosticFormat::Json] {
+                let o = SliceOptions { diagnostic_format: format, disable_color: true, ..Default::default() };
+                let mut emitter = slicec::diagnostic_emitter::DiagnosticEmitter::new(&mut sink, &o, &files);
+                // the diagnostics are consumed by the emitter: re-create the list for the second format from codes only
+                if format == slicec::slice_options::DiagnosticFormat::Human { let _ = emitter.emit_diagnostics(diags_clone(&diags)); } else { let _ = emitter.emit_diagnostics(diags_clone(&diags)); }
+            }
+            if accepted { let _ = crate::perm::encode_request_pub(&files); }
+            "verdict".to_string()
+        }
         "codes" => { let diags = state.diagnostics.into_updated(&state.ast, &state.files, &options); error_code_set(&diags) }
         "allcodes" => { let diags = state.diagnostics.into_updated(&state.ast, &state.files, &options); codes(&diags) }
         "diags" => { let diags = state.diagnostics.into_updated(&state.ast, &state.files, &options); diag_list(&diags) }
@@ -304,6 +320,16 @@ pub fn projection(c: Compiled, proj: &str) -> String {
         }
         other => crate::compile_ext::projection_ext(state, options, other),
     }
+}
+
+/// `Diagnostic` is not `Clone`: rebuild an equivalent list (kind is lost, code/message/span/notes are what the emitter reads)
+fn diags_clone(diags: &[Diagnostic]) -> Vec<Diagnostic> {
+    diags.iter().filter(|d| d.level() != DiagnosticLevel::Allowed).map(|d| {
+        let mut n = Diagnostic::new(slicec::diagnostics::Error::Syntax { message: d.message() });
+        if let Some(s) = d.span() { n = n.set_span(s); }
+        for note in d.notes() { n = n.add_note(note.message.clone(), note.span.as_ref()); }
+        n
+    }).collect()
 }
 
 pub fn run_compile(proj: &str, options: &str, files_hex: &str, expected: &str) -> CaseResult {
